@@ -366,21 +366,40 @@ func (c *compiler) compile(tok *token) []instruction {
 			todo = append(todo, instruction{Code: infixMap[tok.Symbol[:len(tok.Symbol)-1]]})
 		}
 		arg := tok.Tokens[0]
+		// the operands of the target are evaluated once: if one of them contains a call, its value is kept in a
+		// hidden local for the second use (plain operands are simply compiled twice)
+		hidden := 0
+		once := func(t *token) (first, again []instruction) {
+			code := c.compile(t)
+			if !hasCall(t) {
+				return code, code
+			}
+			if hidden == 0 {
+				c.Begin()
+			}
+			hidden++
+			slot := reg(c.Locals.Index(fmt.Sprintf("%v#%d", tok.Pos, hidden)))
+			get := []instruction{{Code: codeLocalGet, A: slot}}
+			return append(append(code, instruction{Code: codeLocalSet, A: slot, B: 1}), get...), get
+		}
 		if arg.Symbol == "index" {
 			const indexItem, indexKey = 0, 1
-			res = append(res, c.compile(arg.Tokens[indexItem])...)
-			res = append(res, c.compile(arg.Tokens[indexKey])...)
+			item, itemAgain := once(arg.Tokens[indexItem])
+			key, keyAgain := once(arg.Tokens[indexKey])
+			res = append(res, item...)
+			res = append(res, key...)
 			res = append(res, instruction{Code: codeGet})
 			res = append(res, todo...)
-			res = append(res, c.compile(arg.Tokens[indexItem])...)
-			res = append(res, c.compile(arg.Tokens[indexKey])...)
+			res = append(res, itemAgain...)
+			res = append(res, keyAgain...)
 			res = append(res, instruction{Code: codeSet})
 		} else if arg.Symbol == "." {
 			const indexItem, indexKey = 0, 1
-			res = append(res, c.compile(arg.Tokens[indexItem])...)
+			item, itemAgain := once(arg.Tokens[indexItem])
+			res = append(res, item...)
 			res = append(res, instruction{Code: codeGetAttr, A: reg(c.Globals.Index(arg.Tokens[indexKey].Text))})
 			res = append(res, todo...)
-			res = append(res, c.compile(arg.Tokens[indexItem])...)
+			res = append(res, itemAgain...)
 			res = append(res, instruction{Code: codeSetAttr, A: reg(c.Globals.Index(arg.Tokens[indexKey].Text))})
 		} else {
 			getter := codeGlobalGet
@@ -397,6 +416,9 @@ func (c *compiler) compile(tok *token) []instruction {
 			res = append(res, instruction{Code: getter, A: reg(lookup.Index(key))})
 			res = append(res, todo...)
 			res = append(res, instruction{Code: setter, A: reg(lookup.Index(key))})
+		}
+		if hidden > 0 {
+			c.End()
 		}
 
 	case "const":
@@ -1066,6 +1088,19 @@ func (c *compiler) doOptimize(in []instruction) []instruction {
 		}
 	}
 	return out
+}
+
+// hasCall reports whether evaluating the expression may call a function.
+func hasCall(tok *token) bool {
+	if tok.Symbol == "call" {
+		return true
+	}
+	for _, t := range tok.Tokens {
+		if t != nil && hasCall(t) {
+			return true
+		}
+	}
+	return false
 }
 
 func typeFromToken(c *compiler, tok *token) Type {
